@@ -5,7 +5,8 @@ interpreter, one operator per DW_CFA opcode) and spec/trace/CFITrace.tla (same i
 operators, total verdict).
 
 G: TLC enumerates abstract sections (scan mode; scanz mode: .eh_frame terminators that are not the last
-   record, set-valued expectation), FDE programs (prog mode) and long random programs
+   record, set-valued expectation; pers mode: the personality pointer of a 'P' CIE over every pointer encoding x
+   the value classes of its format, negative values included), FDE programs (prog mode) and long random programs
    (sim mode) and writes bytes + the view a correct reader reports + the decoded tables.  The driver
    hands the bytes to CallFrameInfo(...).get_entries() (and, for a sample, to
    DWARFInfo.CFI_entries/EH_CFI_entries) and compares kinds, offsets, header fields,
@@ -184,7 +185,11 @@ def _expect(ent):
                 'augb': ent['augb'],
                 'augd': [len(ent['augb']) if ent['hasz'] else None, none(ent['fenc']), none(ent['lenc']),
                          none(ent['penc'])],
-                'pers': _den(ent['pers']) if ent['penc'] != -1 and ent['persabs'] else None,
+                # the admissible reports of the personality pointer (CFI!PersDen): the number the encoding denotes, or
+                # the address it designates in the address space; nothing under pcrel (module header)
+                'pers': (sorted(set(_den(x) for x in ent['persv']['v']))
+                         if ent['penc'] != -1 and ent['persabs'] else None),
+                'perscls': ent['persv']['cls'],
                 'ins': _exp_ins(ent)}
     return {'k': k, 'off': ent['off'], 'header': [ent['len'], ent['ptr']],
             'loc': [_den(ent['loc']), _den(ent['range'])], 'cie': ['CIE', ent['cieoff']],
@@ -243,11 +248,16 @@ def replay_case(case, n):
     for i, (e, o) in enumerate(zip(exp, obs)):
         k = e['k'].lower()
         for fld in e:
-            if fld in ('k', 'off'):
+            if fld in ('k', 'off', 'perscls'):
+                continue
+            if fld == 'pers':
+                if e[fld] is None:
+                    continue         # personality value under pcrel: not fixed (module header)
+                if o[fld] not in e[fld]:
+                    # tag: the spec's class of the stored pointer (abs_unsigned / abs_signed_nonneg / abs_signed_negative)
+                    mm('cie.pers', stag if stag != 'ok' else e['perscls'], i, e[fld], o[fld])
                 continue
             if e[fld] != o[fld]:
-                if fld == 'pers' and e[fld] is None:
-                    continue         # personality value under pcrel: not fixed (module header)
                 mm('%s.%s' % (k, fld), stag, i, e[fld], o[fld])
     # decoded tables; FDE-first and CIE-first decoding orders alternate between cases
     order = list(range(len(ents)))
@@ -537,10 +547,12 @@ def replay(run, path):
 def check(run):
     quick = run.tier == 'quick'
     if quick:
-        cfgs = [('CFI_scan_quick', None, None), ('CFI_scanz_quick', None, None), ('CFI_prog1_quick', None, None),
+        cfgs = [('CFI_scan_quick', None, None), ('CFI_scanz_quick', None, None), ('CFI_pers_quick', None, None),
+                ('CFI_prog1_quick', None, None),
                 ('CFI_prog3_quick', None, None), ('CFI_sim', 1500, 31)]
     else:
-        cfgs = [('CFI_scan_thorough', None, None), ('CFI_scanz_thorough', None, None), ('CFI_prog1_quick', None, None),
+        cfgs = [('CFI_scan_thorough', None, None), ('CFI_scanz_thorough', None, None), ('CFI_pers_thorough', None, None),
+                ('CFI_prog1_quick', None, None),
                 ('CFI_prog2_thorough', None, None),
                 ('CFI_prog4_thorough', None, None), ('CFI_sim_thorough', 5000, 61)]
     counters = {}
@@ -564,7 +576,10 @@ def check(run):
                 'corpus files (distinct by file, section, offset), all non-trivial')
     run.assumptions += [
         'G operands and alignment factors stay below 2^21 (TLC integers are 32-bit); LEB128 range is C16\'s business',
-        'locations never wrap, encoded pointers stay inside [0, 2^(8*address size)), no null raw value under pcrel',
+        'locations never wrap, encoded FDE pointers stay inside [0, 2^(8*address size)), no null raw value under pcrel',
+        'personality pointer: compared only under an absolute encoding; a value outside [0, 2^(8*address size)) (negative '
+        'signed value, 8-byte value on a 4-byte target) may be reported as the number the DW_EH_PE format denotes or as the '
+        'address it designates (CFI!PersDen)',
         'CIE v4 address_size equals the address size handed to CallFrameInfo; segment_size = 0',
         'DW_CFA_set_loc in .eh_frame only under an absptr FDE encoding',
         'records after an .eh_frame terminator: a reader may report all records or stop after the first terminator '
